@@ -9,6 +9,7 @@ import (
 	"log/slog"
 	"net/http"
 	"net/http/httptest"
+	"net/url"
 	"path"
 	"strconv"
 	"sync"
@@ -143,6 +144,9 @@ func (cm *cmafIngesterMgr) NewCmafIngester(req CmafIngesterSetup) (nr uint64, er
 
 	log := slog.Default().With(slog.Uint64("ingester", nr))
 
+	if _, err := url.ParseRequestURI(req.URL); err != nil { // httptest.NewRequest panics on a bad URL
+		return 0, fmt.Errorf("bad livesimURL %q: %w", req.URL, err)
+	}
 	mpdReq := httptest.NewRequest("GET", req.URL, nil)
 	if req.TestNowMS != nil {
 		mpdReq.URL.RawQuery = fmt.Sprintf("nowMS=%d", *req.TestNowMS)
